@@ -17,7 +17,7 @@ def rand_tag(rnd):
     """a complete tag as left context: quoted values may contain the other kind of quote, `=`, `/` and blanks; boolean attributes and a
     self-closing slash may follow them"""
     t = '<' + rnd.choice(['a', 'div', 'br', 'img', 'x-y', 'li', 'svg:rect', 'xsl:if', 'a:b-c'])
-    for _ in range(rnd.randint(0, 3) if rnd.random() < .93 else rnd.randint(28, 40)):      # now and then a tag of several hundred characters
+    for _ in range(rnd.randint(0, 3) if rnd.random() < .9 else rnd.randint(28, 40)):      # now and then a tag of several hundred characters
         t += rnd.choice([' ', '  '])
         t += rnd.choice(['hidden', 'b=c', 'title="it\'s"', "t='say \"hi\"'", 'class="x y"', 'd="a=b"', "e='/'", 'data-x="1/2"', 'q="\'"', "r='\"\"'", 'alt', 'n=1', 'v-on:click=go', 'xlink:href=x', 'a:b=c:d', 'xml:lang="en"'])
     t += rnd.choice(['>', '>', '/>', ' />', '> ', '>\t'])
@@ -42,7 +42,7 @@ def cases(tier, seed, prop):
         if not css and rnd.random() < .15:
             # attribute values / text with a parenthesised group that contains non-abbreviation characters
             ab += rnd.choice(['[title="x (y z)"]', '[onclick="go(1, 2)"]', "[d='f(a b)']", '{call (a, b) now}', '[t="(a b) (c, d)"]', '{(x y)}']) + rnd.choice(['', '*2', '>b'])
-        if len(left + ab + right) > 90: continue
+        if len(left + ab + right) > (90 if len(left) < 200 else 520): continue      # (a tag of several hundred characters as left context is kept)
         out.append({'s': left + ab + right, 'g': 'roundtrip', 'rt': [len(left), len(left) + len(ab), css]})
         k += 1
     return out
